@@ -92,9 +92,12 @@ OUTER:
 		m.invalidateLatestSnapshotLOCKED()
 
 		stackCleanPrev = m.stackClean
-		if m.options.CachePersisted {
+		if m.options.CachePersisted && !m.stackDirtyBase.hasMergeOperations() {
 			m.stackClean = m.stackDirtyBase
 		} else {
+			// A stack that still holds merge operands must not be cached
+			// above the lower level that now contains those operands
+			// already, or readers would apply them a second time.
 			m.stackClean = nil
 
 			stackDirtyBasePrev = m.stackDirtyBase
